@@ -15,48 +15,54 @@
    largest is on the cone and they fall on either side.                                        *)
 EXTENDS Integers, Sequences, TLC
 
-CONSTANTS Models, Lengths, Steps, Fractions, Factors, Moves, BothMoves, Energies,
+CONSTANTS Models, Lengths, Steps, Fractions, Factors, Moves, BothMoves, Energies, Ices,
           OffCone       \* angle indices a: theta = theta_c + 0.02 * a for |a| < 100; 100, 101, 102 stand for theta = 0, pi/2, pi
 
-VARIABLES model, n, step, frac, off, en,  \* fixed per behaviour: model, grid length, grid step index, (em, had) fractions, angle index, base energy index
-          kR, sign, mg, mt, kE, zero,      \* current inputs relative to the base
+VARIABLES model, n, step, frac, off, en, ice,  \* fixed per behaviour: model, grid length, grid step index, (em, had) fractions, angle index, base energy index
+          kR, sign, mg, mt, kE, zero, fdiv,     \* current inputs relative to the base (fdiv: the EM fraction is 1 / fdiv)
           rel, last
-vars == <<model, n, step, frac, off, en, kR, sign, mg, mt, kE, zero, rel, last>>
+vars == <<model, n, step, frac, off, en, ice, kR, sign, mg, mt, kE, zero, fdiv, rel, last>>
 
-Init == /\ model \in Models /\ n \in Lengths /\ step \in Steps /\ frac \in Fractions /\ off \in OffCone /\ en \in Energies
-        /\ kR = 1 /\ sign = 1 /\ mg = 0 /\ mt = 0 /\ kE = 1 /\ zero = FALSE
+Init == /\ model \in Models /\ n \in Lengths /\ step \in Steps /\ frac \in Fractions /\ off \in OffCone /\ en \in Energies /\ ice \in Ices
+        /\ kR = 1 /\ sign = 1 /\ mg = 0 /\ mt = 0 /\ kE = 1 /\ zero = FALSE /\ fdiv = 1
         /\ rel = [num |-> 1, den |-> 1, shift |-> 0, zero |-> FALSE]
         /\ last = [op |-> "Init"]
 
-Fixed == UNCHANGED <<model, n, step, frac, off, en>>
+Fixed == UNCHANGED <<model, n, step, frac, off, en, ice>>
 
 ScaleR(k) == /\ kR * k <= 8
              /\ kR' = kR * k /\ rel' = [rel EXCEPT !.den = @ * k]
              /\ last' = [op |-> "ScaleR", k |-> k]
-             /\ Fixed /\ UNCHANGED <<sign, mg, mt, kE, zero>>
+             /\ Fixed /\ UNCHANGED <<sign, mg, mt, kE, zero, fdiv>>
 FlipAngle == /\ sign' = 0 - sign /\ UNCHANGED rel
              /\ last' = [op |-> "FlipAngle"]
-             /\ Fixed /\ UNCHANGED <<kR, mg, mt, kE, zero>>
+             /\ Fixed /\ UNCHANGED <<kR, mg, mt, kE, zero, fdiv>>
 ShiftBoth(m) == /\ mg + m <= 2000000 /\ mg + m >= -100
                 /\ mg' = mg + m /\ mt' = mt + m /\ UNCHANGED rel
                 /\ last' = [op |-> "ShiftBoth", m |-> m]
-                /\ Fixed /\ UNCHANGED <<kR, sign, kE, zero>>
+                /\ Fixed /\ UNCHANGED <<kR, sign, kE, zero, fdiv>>
 ShiftT0(m) == /\ mt' = mt + m /\ rel' = [rel EXCEPT !.shift = @ + m]
               /\ (mt + m) - mg <= 140 /\ mg - (mt + m) <= 140        \* up to and beyond the edges of the window (relation holds on the overlap)
               /\ last' = [op |-> "ShiftT0", m |-> m]
-              /\ Fixed /\ UNCHANGED <<kR, sign, mg, kE, zero>>
+              /\ Fixed /\ UNCHANGED <<kR, sign, mg, kE, zero, fdiv>>
 (* proportional to the shower energy: electromagnetic shower viewed on the cone (exact for the parameterised models) *)
 ScaleE(k) == /\ frac = <<1, 0>> /\ off = 0 /\ kE * k <= 100
              /\ kE' = kE * k /\ rel' = [rel EXCEPT !.num = @ * k]
              /\ last' = [op |-> "ScaleE", k |-> k]
-             /\ Fixed /\ UNCHANGED <<kR, sign, mg, mt, zero>>
+             /\ Fixed /\ UNCHANGED <<kR, sign, mg, mt, zero, fdiv>>
+(* the electromagnetic fraction of the particle's energy halved (nothing hadronic): the shower energy halves, and on the cone
+   the field with it -- the same law as ScaleE, reached through the fraction instead of the particle energy *)
+HalveFraction == /\ frac = <<1, 0>> /\ off = 0 /\ fdiv * 2 <= 4
+                 /\ fdiv' = fdiv * 2 /\ rel' = [rel EXCEPT !.den = @ * 2]
+                 /\ last' = [op |-> "HalveFraction"]
+                 /\ Fixed /\ UNCHANGED <<kR, sign, mg, mt, kE, zero>>
 Zero(how) == /\ ~zero                         \* how: "energy" (particle energy 0) or "fractions" (em = had = 0)
         /\ zero' = TRUE /\ rel' = [rel EXCEPT !.zero = TRUE]
         /\ last' = [op |-> "Zero", how |-> how]
-        /\ Fixed /\ UNCHANGED <<kR, sign, mg, mt, kE>>
+        /\ Fixed /\ UNCHANGED <<kR, sign, mg, mt, kE, fdiv>>
 AngleScan == /\ last.op = "Init"
              /\ last' = [op |-> "AngleScan", expect |-> "largest on the cone, falling on either side"]
-             /\ Fixed /\ UNCHANGED <<kR, sign, mg, mt, kE, zero, rel>>
+             /\ Fixed /\ UNCHANGED <<kR, sign, mg, mt, kE, zero, fdiv, rel>>
 
 Next == \/ \E k \in Factors : ScaleR(k)
         \/ FlipAngle
@@ -65,10 +71,11 @@ Next == \/ \E k \in Factors : ScaleR(k)
         \/ \E k \in Factors : ScaleE(k)
         \/ \E how \in {"energy", "fractions"} : Zero(how)
         \/ AngleScan
+        \/ HalveFraction
 Spec == Init /\ [][Next]_vars
 
 (* the bookkeeping describes the inputs *)
-Consistent == /\ rel.num = kE /\ rel.den = kR
+Consistent == /\ rel.num = kE /\ rel.den = kR * fdiv
               /\ rel.shift = mt - mg
               /\ rel.zero = zero
 =============================================================================
